@@ -294,4 +294,26 @@ theorem memberLock_eq_source (m : Member) (exp : Ty) (args : List Ty) (hd : memb
 example : acceptMember .delete Ty.str [Ty.int] true = some Gen.EXC_PARSE_CONST_VIOLATION_S ∧
     acceptMember .count Ty.str [] true = none ∧ (recvOf .count).lockChecked = false := ⟨rfl, rfl, rfl⟩
 
+/-- put / insert / concat on a LEVEL-0 receiver that passes the receiver test, position argument (if any) type-checking as
+integer, exactly the right number of arguments: the model accepts IF AND ONLY IF the value argument passes the test
+extracted from the receiver's case of the method's second `switch (exp_type.major())`; otherwise EXC_PARSE_MEMB_ARG_TYPE_S.
+(The collection branch — receivers of level ≥ 1 — is still hand-transcribed.)
+BREAKS when: a conjunct `args.back()->type(ctx) != Type::X` or the `typeChecking(…, Type::INTEGER)` is added to or dropped
+from a case, a case moves between `break;` and a test, or a receiver label of that switch changes. -/
+theorem memberArgs_eq_source (m : Member) (hm : m = .put ∨ m = .insert ∨ m = .concat) (exp arg pos : Ty)
+    (hl : exp.level = 0) (hd : memberDispatch exp = none) (hr : level0Seq exp = true) (hp : typeChecking pos Ty.int = true) :
+    acceptMember m exp ((lead m).map (fun _ => pos) ++ [arg]) false =
+      (if arg0Ok (arg0Of m) exp arg = some true then none else some Gen.EXC_PARSE_MEMB_ARG_TYPE_S) := by
+  rcases exp with ⟨mj, mn, lv⟩
+  simp only at hl; subst hl
+  rcases hm with h | h | h <;> subst h <;> cases mj <;>
+    simp_all [acceptMember, memberDispatch, level0Seq, lead, arg0Of, arg0Ok, Memb.put_arg0, Memb.insert_arg0, Memb.concat_arg0, evalArgRule]
+  all_goals (repeat' split)
+  all_goals simp_all
+  all_goals omega
+
+example : arg0Ok (arg0Of .insert) Ty.raw Ty.str = some true ∧ arg0Ok (arg0Of .insert) Ty.str Ty.raw = some false ∧
+    arg0Ok (arg0Of .put) Ty.str Ty.str = some false ∧ arg0Ok (arg0Of .concat) Ty.none Ty.bool = some true ∧
+    acceptMember .insert Ty.str [Ty.int, Ty.raw] false = some Gen.EXC_PARSE_MEMB_ARG_TYPE_S := ⟨rfl, rfl, rfl, rfl, rfl⟩
+
 end BlocV.C02G
